@@ -376,6 +376,12 @@ func (s *Solver) Solve(obs []*Obligation, thorough bool, timeout int, jobs int) 
 			// quick: z3-new first; on anything but unsat/sat race the other two
 			r0, raw0, ms0 := runSolver(solvers[0], s.tmpdir, base, script, timeout)
 			ob.Ms += ms0
+			for retry := 0; r0 == "error" && retry < 2; retry++ {
+				// a solver process that dies (e.g. under memory pressure with many parallel queries) is retried, never trusted
+				time.Sleep(200 * time.Millisecond)
+				r0, raw0, ms0 = runSolver(solvers[0], s.tmpdir, fmt.Sprintf("%s_r%d", base, retry), script, timeout)
+				ob.Ms += ms0
+			}
 			if r0 == "unsat" {
 				ob.Result, ob.Backend = "unsat", solvers[0].name
 				return
